@@ -52,6 +52,8 @@ func main() {
 		os.Exit(cmdCheck(os.Args[2:]))
 	case "dump":
 		os.Exit(cmdDump(os.Args[2:]))
+	case "keys":
+		cmdKeys("/repo", os.Args[2], os.Args[3])
 	case "parse":
 		for _, f := range os.Args[2:] {
 			cf, err := ParseContractFile(f, "")
